@@ -922,4 +922,80 @@ example :
     (Obj.tuple [.fset [.str 0, .list [.str 1]]]).wf = false ∧
     (Obj.tuple [.fset [.str 0, .tuple [.str 1]], .mset [.str 2], .list [.str 3]]).wf = true := by decide +kernel
 
+/-- **exactly when** the range validator leaks a TypeError: its parent-class check does, or that check
+    passes, a score range is configured, and in iteration order the first score that is not a number
+    within the range is not a number at all -/
+theorem range_typeError_iff (cfg : RangeCfg) (v : Obj) :
+    validateRange cfg v = .error .typeError ↔
+      validateScoreBase cfg.base v = .error .typeError ∨
+      ∃ items, v = .fset items ∧ ValidScoreBase cfg.base items ∧ cfg.range.active = true ∧
+        ∃ pre s post, scoresOf items = pre ++ s :: post ∧ (∀ y ∈ pre, ScoreInRange cfg.range y) ∧
+          s.isNum = false := by
+  unfold validateRange
+  rw [bind_err_iff]
+  apply or_congr Iff.rfl
+  cases v with
+  | fset items =>
+    simp only [validateScoreBase_iff, Obj.fset.injEq, exists_eq_left', forEach_err_iff, checkObj_ok_iff]
+    constructor
+    · rintro ⟨hb, pre, s, post, he, h1, h2⟩
+      refine ⟨hb, ?_, pre, s, post, he, h1, ?_⟩
+      · cases s with
+        | num x => cases check_err (by simpa [Bounds.checkObj] using h2)
+        | _ => simp only [Bounds.checkObj] at h2; split at h2 <;> first | assumption | cases h2
+      · cases s with
+        | num x => cases check_err (by simpa [Bounds.checkObj] using h2)
+        | _ => rfl
+    · rintro ⟨hb, hact, pre, s, post, he, h1, h2⟩
+      refine ⟨hb, pre, s, post, he, h1, ?_⟩
+      cases s with
+      | num x => simp [Obj.isNum] at h2
+      | _ => simp [Bounds.checkObj, hact]
+  | _ => simp [validateScoreBase]
+
+/-! ### ranked votes: the order inside a shared rank is immaterial -/
+
+/-- two ranks that differ at most in the iteration order of a set -/
+inductive RankPerm : Obj → Obj → Prop
+  | refl (r : Obj) : RankPerm r r
+  | fset {xs ys : List Obj} : xs.Perm ys → RankPerm (.fset xs) (.fset ys)
+  | mset {xs ys : List Obj} : xs.Perm ys → RankPerm (.mset xs) (.mset ys)
+
+private theorem rankPerm_cands {r r' : Obj} (h : RankPerm r r') :
+    (rankCandsAnySet r).Perm (rankCandsAnySet r') := by
+  cases h with
+  | refl => exact List.Perm.refl _
+  | fset h => exact h
+  | mset h => exact h
+
+private theorem rankPerm_flat {rs rs' : List Obj} (h : List.Forall₂ RankPerm rs rs') :
+    (rs.flatMap rankCandsAnySet).Perm (rs'.flatMap rankCandsAnySet) := by
+  induction h with
+  | nil => exact List.Perm.refl _
+  | cons h _ ih =>
+    simp only [List.flatMap_cons]
+    exact (rankPerm_cands h).append ih
+
+private theorem rankPerm_ranks {rs rs' : List Obj} (h : List.Forall₂ RankPerm rs rs')
+    (P : Nat → Nat → Prop) (i : Nat) :
+    (∀ p ∈ rs.zipIdx i, P p.2 (rankCandsAnySet p.1).length) ↔
+      (∀ p ∈ rs'.zipIdx i, P p.2 (rankCandsAnySet p.1).length) := by
+  induction h generalizing i with
+  | nil => simp
+  | cons h _ ih =>
+    simp only [List.zipIdx_cons, List.mem_cons, forall_eq_or_imp, (rankPerm_cands h).length_eq, ih (i + 1)]
+
+theorem valid_ranked_perm (cfg : RankedCfg) {rs rs' : List Obj} (h : List.Forall₂ RankPerm rs rs') :
+    ValidRankedAnySet cfg (.tuple rs) ↔ ValidRankedAnySet cfg (.tuple rs') := by
+  have hf := rankPerm_flat h
+  have hr := rankPerm_ranks h (fun i n => Within (cfg.rank.get (i + 1)) (n : Nat)) 0
+  simp only [ValidRankedAnySet, ValidRankedWith, hf.mem_iff, hf.nodup_iff, hf.length_eq]
+  exact and_congr Iff.rfl (and_congr Iff.rfl (and_congr Iff.rfl hr))
+
+/-- the verdict on a ranked ballot does not depend on the iteration order of its shared ranks -/
+theorem accept_ranked_order_independent (cfg : RankedCfg) {rs rs' : List Obj}
+    (h : List.Forall₂ RankPerm rs rs') :
+    validateRanked cfg (.tuple rs) = .ok () ↔ validateRanked cfg (.tuple rs') = .ok () := by
+  rw [validate_iff_valid_ranked_anyset, validate_iff_valid_ranked_anyset, valid_ranked_perm cfg h]
+
 end VL.C20
